@@ -473,13 +473,42 @@ func ruleTrapFilterUsesCallerTraps(w *World, r *RuleResult) {
 		r.anchorMissing("(*Context).goError")
 		return
 	}
-	for _, c := range w.allCallsTo("(*Context).goError") {
+	// the trap filter and its proxies: unexported Context methods that apply
+	// the filter of the context they are called on (finish(c, res), roundRoot)
+	filters := map[*ssa.Function]bool{w.fn("(*Context).goError"): true}
+	for grew := true; grew; {
+		grew = false
+		for _, nm := range w.Names {
+			g := w.Funcs[nm]
+			if filters[g] || g.Object() == nil || g.Object().Exported() || len(g.Params) == 0 || g.Signature.Recv() == nil || w.apdTypeName(g.Signature.Recv().Type()) != "Context" {
+				continue
+			}
+			for _, ci := range callsIn(g) {
+				if call, ok := ci.(*ssa.Call); ok && filters[callee(call)] && len(call.Common().Args) > 0 && call.Common().Args[0] == ssa.Value(g.Params[0]) {
+					filters[g] = true
+					grew = true
+				}
+			}
+		}
+	}
+	var sites []*ssa.Call
+	for _, nm := range w.Names {
+		for _, ci := range callsIn(w.Funcs[nm]) {
+			if call, ok := ci.(*ssa.Call); ok && filters[callee(call)] {
+				sites = append(sites, call)
+			}
+		}
+	}
+	for _, c := range sites {
 		f := c.Parent()
 		rc := f.Signature.Recv()
 		if rc == nil || w.apdTypeName(rc.Type()) != "Context" {
 			continue
 		}
 		key := fmt.Sprintf("%s | goError on the caller's traps", w.shortName(f))
+		if callee(c) != w.fn("(*Context).goError") {
+			key = fmt.Sprintf("%s | %s on the caller's traps", w.shortName(f), callee(c).Name())
+		}
 		if n := countKey(r, key); n > 0 {
 			key = fmt.Sprintf("%s #%d", key, n+1)
 		}
